@@ -8,6 +8,16 @@ files=("$@"); [ ${#files[@]} -eq 0 ] && files=("$HERE"/*_test.go.txt)
 rc=0
 for f in "${files[@]}"; do
   base="$(basename "$f")"; commit="${base%%_*}"
+  case "$base" in known-*)
+    # witnesses of known (unrepaired) findings: must FAIL on /repo HEAD
+    pkg="$(sed -n 's|^// witness-pkg: ||p' "$f" | head -1)"
+    tname="$(grep -o 'func Test[A-Za-z0-9_]*' "$f" | head -1 | sed 's/func //')"
+    wt="$(mktemp -d /tmp/witness.XXXXXX)"; rmdir "$wt"
+    git -C /repo worktree add -q --detach "$wt" HEAD
+    cp "$f" "$wt/$pkg/zz_witness_test.go"
+    if (cd "$wt/$pkg" && go test -count=1 -run "^${tname}\$" . >/tmp/witness.out 2>&1); then echo "BAD  $base @ HEAD: pass, expected fail (finding no longer reproduces)"; rc=1; else echo "ok   $base @ HEAD: fail (expected, known finding)"; fi
+    git -C /repo worktree remove --force "$wt"; continue;;
+  esac
   pkg="$(sed -n 's|^// witness-pkg: ||p' "$f" | head -1)"
   tname="$(grep -o 'func Test[A-Za-z0-9_]*' "$f" | head -1 | sed 's/func //')"
   for rev in "$commit^" "$commit"; do
